@@ -41,7 +41,7 @@ Section Batch.
   (* ---------- the classification fold ---------- *)
   Lemma classify_spec tincl0 (evs : list (file * kind)) : forall (p : proj A) (h : hflags),
     NoDup (map fst evs) -> (forall f k, In (f, k) evs -> in_dir A f = true) -> ssorted (p_files p) ->
-    let ph := fold_left (classify_one A fx tincl0) evs (p, h) in
+    let ph := fold_left (classify_base A fx tincl0) evs (p, h) in
     let p1 := fst ph in let h1 := snd ph in
     (forall g, In g (p_files p1) <-> (In g (p_files p) /\ ~ In (g, KDeleted) evs) \/ In (g, KCreated) evs) /\
     ssorted (p_files p1) /\
@@ -68,7 +68,7 @@ Section Batch.
       assert (Hdir' : forall f0 k0, In (f0, k0) r -> in_dir A f0 = true) by (intros f0 k0 H; apply (Hdir f0 k0); right; exact H).
       assert (Hnr : forall k0, ~ In (f, k0) r) by (intros k0 H; apply Hnin; eapply in_ev_files; exact H).
       cbn [fold_left].
-      destruct (classify_one A fx tincl0 (p, h) (f, k)) as [p' h'] eqn:Ec.
+      destruct (classify_base A fx tincl0 (p, h) (f, k)) as [p' h'] eqn:Ec.
       assert (Hstep :
         p_files p' = match k with KCreated => fadd f (p_files p) | KChanged => p_files p | KDeleted => frem f (p_files p) end /\
         p_index p' = match k with KCreated => fadd f (p_index p) | KChanged => p_index p
@@ -79,7 +79,7 @@ Section Batch.
         h_refer h' = match k with KChanged => h_refer h | _ => fadd f (h_refer h) end /\
         h_all h' = match k with KChanged => h_all h | _ => true end /\
         h_third h' = match k with KChanged => h_third h | _ => true end || fmem f tincl0).
-      { unfold classify_one in Ec. cbn [fst snd] in Ec. destruct k; rewrite ?Hdf in Ec; injection Ec as <- <-; cbn; auto 12. }
+      { unfold classify_base in Ec. cbn [fst snd] in Ec. destruct k; rewrite ?Hdf in Ec; injection Ec as <- <-; cbn; auto 12. }
       destruct Hstep as [S1 [S2 [S3 [S4 [S5 [S6 [S7 [S8 S9]]]]]]]].
       assert (Hs' : ssorted (p_files p')).
       { rewrite S1. destruct k; [apply fadd_sorted|exact Hs|apply frem_sorted]; exact Hs. }
@@ -267,13 +267,78 @@ Section Batch.
     destruct (first_many A fx true dk p1 (h_again h)) as [p2 c]. reflexivity.
   Qed.
 
-  (* what a conformant notification says about the disk before (dk0) and after (dk) *)
+  (* the same with the classification fold of any list of events that are HANDLED AS evs' *)
+  Lemma handle_events_eq_as dk (p : proj A) evs evs' :
+    fold_left (classify_one A fx (p_tincl p)) evs (p, h0) = fold_left (classify_base A fx (p_tincl p)) evs' (p, h0) ->
+    handle_events A fx dk p evs =
+    let ph := fold_left (classify_base A fx (p_tincl p)) evs' (p, h0) in
+    let h := snd ph in
+    let pc := first_many A fx true dk (fst ph) (h_again h) in
+    let p3 := set_lru A (fst pc) (fold_left (fun l f => match res_of A (fst pc) f with Some _ => frem f l | None => l end)
+                                            (h_again h) (p_lru (fst pc))) in
+    let p4 := if is_nil (h_refer h) then p3 else reanalyse_all A p3 (h_refer h) in
+    if negb (snd pc) && negb (h_all h) then (p4, negb (is_nil (h_refer h)))
+    else ((if h_third h then recompute_third A p4 else p4), true).
+  Proof. intros H. rewrite handle_events_eq, H. reflexivity. Qed.
+
+  (* ---------- the kinds the events of a notification are handled as (repair flag fix_changed_unknown) ---------- *)
+  Definition eff_evs (p : proj A) (evs : list (file * kind)) : list (file * kind) :=
+    map (fun ev => (fst ev, eff_kind A fx p ev)) evs.
+
+  Lemma eff_evs_files p evs : map fst (eff_evs p evs) = map fst evs.
+  Proof. unfold eff_evs. rewrite map_map. reflexivity. Qed.
+
+  Lemma in_eff_evs p evs f k' : In (f, k') (eff_evs p evs) <-> exists k, In (f, k) evs /\ k' = eff_kind A fx p (f, k).
+  Proof.
+    unfold eff_evs. rewrite in_map_iff. split.
+    - intros [[f0 k] [E Hin]]. cbn [fst] in E. injection E as -> <-. exists k. auto.
+    - intros [k [Hin ->]]. exists (f, k). auto.
+  Qed.
+
+  Lemma classify_base_files_other tincl0 (p : proj A) h f k g : g <> f ->
+    fmem g (p_files (fst (classify_base A fx tincl0 (p, h) (f, k)))) = fmem g (p_files p).
+  Proof.
+    intros Hne. apply N.eqb_neq in Hne. unfold classify_base. cbn [fst snd].
+    destruct k; [destruct (in_dir A f || fix_outside fx)|idtac|destruct (in_dir A f || fix_outside fx)];
+      cbn [fst remove_file p_files]; rewrite ?fmem_fadd, ?fmem_frem, ?Hne; reflexivity.
+  Qed.
+
+  (* a notification that names every file once is handled event by event with the kinds read off the project as it is
+     BEFORE the notification *)
+  Lemma classify_fold_eff tincl0 evs : forall (p0 p : proj A) (h : hflags),
+    NoDup (map fst evs) -> (forall g, In g (map fst evs) -> fmem g (p_files p) = fmem g (p_files p0)) ->
+    fold_left (classify_one A fx tincl0) evs (p, h) = fold_left (classify_base A fx tincl0) (eff_evs p0 evs) (p, h).
+  Proof.
+    induction evs as [|[f k] r IH]; intros p0 p h Hnd Hsame; [reflexivity|].
+    cbn [map fst] in Hnd. apply NoDup_cons_iff in Hnd as [Hnin Hnd].
+    cbn [eff_evs map fold_left fst]. fold (eff_evs p0 r).
+    unfold classify_one at 2. cbn [fst snd].
+    assert (Ek : eff_kind A fx p (f, k) = eff_kind A fx p0 (f, k)).
+    { unfold eff_kind. cbn [fst snd]. rewrite (Hsame f) by (left; reflexivity). reflexivity. }
+    rewrite Ek.
+    destruct (classify_base A fx tincl0 (p, h) (f, eff_kind A fx p0 (f, k))) as [p' h'] eqn:Ec.
+    apply IH; [exact Hnd|].
+    intros g Hg. rewrite <- (Hsame g) by (right; exact Hg).
+    replace p' with (fst (classify_base A fx tincl0 (p, h) (f, eff_kind A fx p0 (f, k)))) by (rewrite Ec; reflexivity).
+    apply classify_base_files_other. intros ->. contradiction.
+  Qed.
+
+  (* what a conformant notification says about the disk before (dk0) and after (dk); batch_ok_s: every "changed" file
+     was there before; batch_ok: or the code has the changed-unknown repair *)
+  Record batch_ok_s (dk0 dk : amap txt) (evs : list (file * kind)) : Prop := {
+    bs_nodup : NoDup (map fst evs);
+    bs_indir : forall f k, In (f, k) evs -> in_dir A f = true;
+    bs_other : forall g, ~ In g (map fst evs) -> aget dk g = aget dk0 g;
+    bs_c : forall f, In (f, KCreated) evs -> aget dk f <> None;
+    bs_m : forall f, In (f, KChanged) evs -> aget dk f <> None /\ aget dk0 f <> None;
+    bs_d : forall f, In (f, KDeleted) evs -> aget dk f = None
+  }.
   Record batch_ok (dk0 dk : amap txt) (evs : list (file * kind)) : Prop := {
     b_nodup : NoDup (map fst evs);
     b_indir : forall f k, In (f, k) evs -> in_dir A f = true;
     b_other : forall g, ~ In g (map fst evs) -> aget dk g = aget dk0 g;
     b_c : forall f, In (f, KCreated) evs -> aget dk f <> None;
-    b_m : forall f, In (f, KChanged) evs -> aget dk f <> None /\ aget dk0 f <> None;
+    b_m : forall f, In (f, KChanged) evs -> aget dk f <> None /\ (aget dk0 f <> None \/ fix_changed_unknown fx = true);
     b_d : forall f, In (f, KDeleted) evs -> aget dk f = None
   }.
 
@@ -299,42 +364,43 @@ Section Batch.
       (assert (existsb not_m evs = true); [apply existsb_exists; eexists; split; [exact Hin|reflexivity]|congruence]).
   Qed.
 
-  Lemma he_batch dk0 dk (p : proj A) evs :
-    good_proj A mem dk0 p -> batch_ok dk0 dk evs ->
+  Lemma he_batch_as dk0 dk (p : proj A) evs0 evs :
+    fold_left (classify_one A fx (p_tincl p)) evs0 (p, h0) = fold_left (classify_base A fx (p_tincl p)) evs (p, h0) ->
+    good_proj A mem dk0 p -> batch_ok_s dk0 dk evs ->
     (forall f k t, In (f, k) evs -> aget dk f = Some t -> empty_hit_p A fx p f t = false) ->
-    let r := handle_events A fx dk p evs in
+    let r := handle_events A fx dk p evs0 in
     (nostale_p A (fst r) \/ idx_sub A (fst r) -> good_proj A mem dk (fst r)) /\
     (snd r = false -> forall g, errs_of A (fst r) g = errs_of A p g).
   Proof.
-    intros G B Hemp. cbn zeta. rewrite handle_events_eq. cbn zeta.
+    intros Hfold G B Hemp. cbn zeta. rewrite (handle_events_eq_as dk p evs0 evs Hfold). cbn zeta. clear Hfold evs0.
     assert (Hs0 : ssorted (p_files p)) by (rewrite (gp_files _ _ _ _ G); apply dfiles_sorted).
-    pose proof (classify_spec (p_tincl p) evs p h0 (b_nodup _ _ _ B) (b_indir _ _ _ B) Hs0) as CS. cbn zeta in CS.
-    set (ph := fold_left (classify_one A fx (p_tincl p)) evs (p, h0)) in *.
+    pose proof (classify_spec (p_tincl p) evs p h0 (bs_nodup _ _ _ B) (bs_indir _ _ _ B) Hs0) as CS. cbn zeta in CS.
+    set (ph := fold_left (classify_base A fx (p_tincl p)) evs (p, h0)) in *.
     set (p1 := fst ph) in *. set (h := snd ph) in *.
     destruct CS as [C1 [C2 [C3 [C4 [C5 [C6 [C7 [C8 [C9 [C10 C11]]]]]]]]]].
     cbn [h0 h_again h_refer h_all h_third app orb] in C8, C9, C10, C11.
-    assert (Hone : forall g k1 k2, In (g, k1) evs -> In (g, k2) evs -> k1 = k2) by (intros; eapply nodup_one_kind; [apply (b_nodup _ _ _ B)|eassumption|eassumption]).
+    assert (Hone : forall g k1 k2, In (g, k1) evs -> In (g, k2) evs -> k1 = k2) by (intros; eapply nodup_one_kind; [apply (bs_nodup _ _ _ B)|eassumption|eassumption]).
     (* files of p1 = workspace files of the new disk *)
     assert (Hfiles : p_files p1 = dfiles A mem dk).
     { apply sorted_ext; [exact C2|apply dfiles_sorted|]. intros g. rewrite C1, dfiles_in, (gp_files _ _ _ _ G), dfiles_in.
       destruct (in_dec N.eq_dec g (map fst evs)) as [Hin|Hnin].
-      - apply in_map_iff in Hin as [[g' k] [E Hin]]. cbn [fst] in E. subst g'. pose proof (Hmem _ (b_indir _ _ _ B g k Hin)) as Hd. destruct k.
-        + split; [intros _; split; [exact Hd|apply (b_c _ _ _ B); exact Hin]|intros _; right; exact Hin].
-        + destruct (b_m _ _ _ B g Hin) as [M1 M2]. split; [intros _; auto|]. intros _. left. split; [auto|].
+      - apply in_map_iff in Hin as [[g' k] [E Hin]]. cbn [fst] in E. subst g'. pose proof (Hmem _ (bs_indir _ _ _ B g k Hin)) as Hd. destruct k.
+        + split; [intros _; split; [exact Hd|apply (bs_c _ _ _ B); exact Hin]|intros _; right; exact Hin].
+        + destruct (bs_m _ _ _ B g Hin) as [M1 M2]. split; [intros _; auto|]. intros _. left. split; [auto|].
           intros HD. pose proof (Hone g _ _ Hin HD). discriminate.
         + split.
           * intros [[_ Hn]|HC]; [contradiction|]. pose proof (Hone g _ _ Hin HC). discriminate.
-          * intros [_ Hn]. rewrite (b_d _ _ _ B g Hin) in Hn. congruence.
-      - rewrite (b_other _ _ _ B g Hnin). split.
+          * intros [_ Hn]. rewrite (bs_d _ _ _ B g Hin) in Hn. congruence.
+      - rewrite (bs_other _ _ _ B g Hnin). split.
         + intros [[H _]|HC]; [exact H|]. exfalso. apply Hnin. eapply in_ev_files. exact HC.
         + intros H. left. split; [exact H|]. intros HD. apply Hnin. eapply in_ev_files. exact HD. }
     (* the first passes *)
-    assert (Hagain_nd : NoDup (h_again h)) by (rewrite C8; apply nodup_filter_cm; apply (b_nodup _ _ _ B)).
+    assert (Hagain_nd : NoDup (h_again h)) by (rewrite C8; apply nodup_filter_cm; apply (bs_nodup _ _ _ B)).
     assert (Hagain_in : forall g, In g (h_again h) <-> In (g, KCreated) evs \/ In (g, KChanged) evs) by (intros g; rewrite C8; apply in_filter_cm).
     assert (Hold1 : forall g, ~ In (g, KDeleted) evs -> aget (p_fsm p1) g = aget (p_fsm p) g) by exact C5.
     pose proof (first_fold_spec dk (p_index p) (h_again h) p1 Hagain_nd) as FS. cbn zeta in FS.
     destruct FS as [[F1 [F2 [F3 F4]]] [F5 F6]].
-    { intros g Hg. apply Hagain_in in Hg. destruct Hg as [Hg|Hg]; [apply (b_c _ _ _ B); exact Hg|apply (b_m _ _ _ B); exact Hg]. }
+    { intros g Hg. apply Hagain_in in Hg. destruct Hg as [Hg|Hg]; [apply (bs_c _ _ _ B); exact Hg|apply (bs_m _ _ _ B); exact Hg]. }
     { intros g s Hg Hs. apply Hagain_in in Hg.
       assert (Hnd : ~ In (g, KDeleted) evs) by (intros HD; destruct Hg as [Hg|Hg]; pose proof (Hone g _ _ Hg HD); discriminate).
       rewrite (Hold1 g Hnd) in Hs.
@@ -373,7 +439,7 @@ Section Batch.
           assert (Hnin : ~ In g (map fst evs)).
           { intros Hin. apply in_map_iff in Hin as [[g' k] [E Hin]]. cbn [fst] in E. subst g'. destruct k;
               [apply Ha; apply Hagain_in; auto|apply Ha; apply Hagain_in; auto|contradiction]. }
-          rewrite (b_other _ _ _ B g Hnin). auto. }
+          rewrite (bs_other _ _ _ B g Hnin). auto. }
       destruct Hentry as [t [s [H1 [H2 H3]]]].
       unfold p4. destruct (is_nil (h_refer h)) eqn:Enil.
       - exists t, s. cbn [p3 set_lru p_fsm]. split; [exact H1|]. split; [exact H2|].
@@ -389,7 +455,7 @@ Section Batch.
       assert (Hna : ~ In g (h_again h)).
       { intros Ha. apply Hagain_in in Ha. apply Hg. apply C1. destruct Ha as [Ha|Ha]; [right; exact Ha|].
         left. split.
-        - rewrite (gp_files _ _ _ _ G). apply dfiles_in. split; [apply Hmem; apply (b_indir _ _ _ B g _ Ha)|apply (b_m _ _ _ B g Ha)].
+        - rewrite (gp_files _ _ _ _ G). apply dfiles_in. split; [apply Hmem; apply (bs_indir _ _ _ B g _ Ha)|apply (bs_m _ _ _ B g Ha)].
         - intros HD. pose proof (Hone g _ _ Ha HD). discriminate. }
       assert (Hnone : aget (p_fsm (fst pc)) g = None).
       { rewrite F5 by exact Hna. destruct (in_dec ev_eq_dec (g, KDeleted) evs) as [HD|HD].
@@ -444,12 +510,42 @@ Section Batch.
         { unfold pc in Eq. cbn in Eq. discriminate. }
         pose proof (proj1 (Hagain_in x) (or_introl eq_refl)) as Hx. destruct Hx as [Hx|Hx]; [pose proof (existsb_not_m_false evs Enm x _ Hx); discriminate|].
         apply existsb_exists. exists (x, KChanged). split; [exact Hx|]. cbn [fst]. rewrite (gp_tincl _ _ _ _ G). apply fmem_in.
-        rewrite (gp_files _ _ _ _ G). apply dfiles_in. split; [apply Hmem; apply (b_indir _ _ _ B x _ Hx)|apply (b_m _ _ _ B x Hx)]. }
+        rewrite (gp_files _ _ _ _ G). apply dfiles_in. split; [apply Hmem; apply (bs_indir _ _ _ B x _ Hx)|apply (bs_m _ _ _ B x Hx)]. }
       rewrite Hthird. split; [|discriminate]. intros Hns. apply good_after_third.
       + rewrite P4a. exact Hfiles.
       + exact Hsup4.
       + exact Hin4.
       + exact Hout4.
       + exact Hns.
+  Qed.
+
+  Lemma he_batch dk0 dk (p : proj A) evs :
+    good_proj A mem dk0 p -> batch_ok dk0 dk evs ->
+    (forall f k t, In (f, k) evs -> aget dk f = Some t -> empty_hit_p A fx p f t = false) ->
+    let r := handle_events A fx dk p evs in
+    (nostale_p A (fst r) \/ idx_sub A (fst r) -> good_proj A mem dk (fst r)) /\
+    (snd r = false -> forall g, errs_of A (fst r) g = errs_of A p g).
+  Proof.
+    intros G B Hemp.
+    apply (he_batch_as dk0 dk p evs (eff_evs p evs)).
+    - apply classify_fold_eff; [apply (b_nodup _ _ _ B)|reflexivity].
+    - exact G.
+    - constructor.
+      + rewrite eff_evs_files. apply (b_nodup _ _ _ B).
+      + intros f k' H. apply in_eff_evs in H as [k [H _]]. apply (b_indir _ _ _ B f k H).
+      + rewrite eff_evs_files. apply (b_other _ _ _ B).
+      + intros f H. apply in_eff_evs in H as [k [H E]]. unfold eff_kind in E. cbn [fst snd] in E.
+        destruct k; [apply (b_c _ _ _ B); exact H| |discriminate].
+        apply (b_m _ _ _ B). exact H.
+      + intros f H. apply in_eff_evs in H as [k [H E]]. unfold eff_kind in E. cbn [fst snd] in E.
+        destruct k; [discriminate| |discriminate].
+        destruct (b_m _ _ _ B f H) as [M1 M2]. split; [exact M1|].
+        destruct M2 as [M2|M2]; [exact M2|]. rewrite M2 in E. cbn [andb] in E.
+        destruct (fmem f (p_files p)) eqn:Ef; [|discriminate].
+        apply fmem_in in Ef. rewrite (gp_files _ _ _ _ G) in Ef. apply dfiles_in in Ef. apply Ef.
+      + intros f H. apply in_eff_evs in H as [k [H E]]. unfold eff_kind in E. cbn [fst snd] in E.
+        destruct k; [discriminate| |apply (b_d _ _ _ B); exact H].
+        destruct (fix_changed_unknown fx && negb (fmem f (p_files p))); discriminate.
+    - intros f k' t H. apply in_eff_evs in H as [k [H _]]. apply (Hemp f k t H).
   Qed.
 End Batch.
